@@ -31,6 +31,8 @@ structure Inv (c : Cfg) (s : State) : Prop where
   hist : ∀ pg ∈ s.hist, (pg.1.map Prod.snd).Perm (pg.2.map Prod.snd)
   /-- a complete token set means every supplier's marker has been enqueued -/
   nme : c.m ≤ s.used → cntS SPc.noMark s.sups = 0
+  /-- nobody is on the way to the token hand-over once the token set is complete -/
+  lkT : c.m ≤ s.used → cntC CPc.isLock s.cons + cntC CPc.isTake s.cons = 0
 
 /-- all `≥` facts about the consumer counts that follow from "consumer `j` is `a`" -/
 macro "cfacts" h:ident : tactic => `(tactic| (
@@ -45,7 +47,7 @@ macro "sfacts" h:ident : tactic => `(tactic| (
 /-- numeric part of a step of consumer `j` (`h : s.cons[j]? = some a`, `hpc : a.pc = …`); the
     `rn` clause is discharged with `hnr : s.rpc ≠ .get` -/
 macro "cfin" h:ident hpc:ident hnr:ident : tactic => `(tactic| (
-  refine ⟨?_, ?_, ?_, ?_, ?_, ?_, ?_, ?_, ?_, ?_, ?_, ?_, ?_, ?_, ?_⟩ <;>
+  refine ⟨?_, ?_, ?_, ?_, ?_, ?_, ?_, ?_, ?_, ?_, ?_, ?_, ?_, ?_, ?_, ?_⟩ <;>
     simp only [cntC_set $h, List.length_set, marksOf_append_mark, itemsOf_append_mark] <;>
     simp only [$hpc:ident, CPc.isChk2, CPc.isReput, CPc.isLock, CPc.isTake, CPc.isGive, CPc.isTest,
       CPc.isUnlT, CPc.isUnlF, CPc.isExtra, CPc.isDone, ind_true, ind_false, usedFull,
@@ -53,7 +55,7 @@ macro "cfin" h:ident hpc:ident hnr:ident : tactic => `(tactic| (
     first | assumption | omega | (intro hr; exact absurd hr $hnr) | (intro _; omega) | skip))
 
 macro "sfin" h:ident hpc:ident : tactic => `(tactic| (
-  refine ⟨?_, ?_, ?_, ?_, ?_, ?_, ?_, ?_, ?_, ?_, ?_, ?_, ?_, ?_, ?_⟩ <;>
+  refine ⟨?_, ?_, ?_, ?_, ?_, ?_, ?_, ?_, ?_, ?_, ?_, ?_, ?_, ?_, ?_, ?_⟩ <;>
     simp only [cntS_set $h, List.length_set, marksOf_append_mark, itemsOf_append_mark,
       marksOf_append_item, itemsOf_append_item] <;>
     simp only [$hpc:ident, SPc.isPe1, SPc.notStarted, SPc.noMark, ind_true, ind_false, usedFull,
@@ -72,7 +74,7 @@ theorem room_of_empty (c : Cfg) (s : State) (h : s.queue = []) : room c s = true
 set_option maxHeartbeats 1000000 in
 theorem inv_step (c : Cfg) (hm : 1 ≤ c.m) (hn : 1 ≤ c.n) (s s' : State) (a : Act)
     (hi : Inv c s) (hs : Step c s a s') : Inv c s' := by
-  obtain ⟨lenS, lenC, tok, spareEq, mkr, mutex, wLt, wEq, fifo, noItems, rn, rf, perm, hist, nme⟩ := hi
+  obtain ⟨lenS, lenC, tok, spareEq, mkr, mutex, wLt, wEq, fifo, noItems, rn, rf, perm, hist, nme, lkT⟩ := hi
   have hlock := ind_le s.lock
   have hE := ind_le s.extraOut
   cases hs with
@@ -102,7 +104,7 @@ theorem inv_step (c : Cfg) (hm : 1 ≤ c.m) (hn : 1 ≤ c.n) (s s' : State) (a :
     exact fifoOk_append_mark _ _
   | sRetry i a h hw hroom hdue hstop =>
     sfacts h
-    refine ⟨?_, ?_, ?_, ?_, ?_, ?_, ?_, ?_, ?_, ?_, ?_, ?_, ?_, ?_, ?_⟩ <;>
+    refine ⟨?_, ?_, ?_, ?_, ?_, ?_, ?_, ?_, ?_, ?_, ?_, ?_, ?_, ?_, ?_, ?_⟩ <;>
       simp only [cntS_set h, List.length_set] <;> first | assumption | omega | skip
     exact fifo_set _ h (by simp) fifo
   | sStop i a h hw hroom hdue hstop =>
@@ -233,7 +235,7 @@ theorem inv_step (c : Cfg) (hm : 1 ≤ c.m) (hn : 1 ≤ c.n) (s s' : State) (a :
     cfacts h
     have hnr : s.rpc ≠ .get := by
       intro hr; have := (rn hr).2 a (mem_of_getElem? h); rw [this] at hw; simp [CPc.waiting] at hw
-    refine ⟨?_, ?_, ?_, ?_, ?_, ?_, ?_, ?_, ?_, ?_, ?_, ?_, ?_, ?_, ?_⟩ <;>
+    refine ⟨?_, ?_, ?_, ?_, ?_, ?_, ?_, ?_, ?_, ?_, ?_, ?_, ?_, ?_, ?_, ?_⟩ <;>
       simp only [cntC_set h, List.length_set] <;>
       first | assumption | omega | (intro hr; exact absurd hr hnr) | skip
   | cStop j a h hw hb hdue hstop =>
@@ -255,7 +257,7 @@ theorem inv_step (c : Cfg) (hm : 1 ≤ c.m) (hn : 1 ≤ c.n) (s s' : State) (a :
     · have := room_of_empty c s (hempty (Or.inr hpc)); simp [cBlocked, hpc, this] at hb
   -- ------------------------------------------------------------ renew
   | rStartOk hr hall hf =>
-    refine ⟨lenS, lenC, tok, spareEq, mkr, mutex, wLt, wEq, fifo, noItems, ?_, ?_, perm, hist, nme⟩
+    refine ⟨lenS, lenC, tok, spareEq, mkr, mutex, wLt, wEq, fifo, noItems, ?_, ?_, perm, hist, nme, lkT⟩
     · intro _; exact ⟨by simpa [usedFull] using hf, hall⟩
     · simp
   | rStartFail hr hall hf =>
@@ -286,7 +288,7 @@ theorem inv_step (c : Cfg) (hm : 1 ≤ c.m) (hn : 1 ≤ c.n) (s s' : State) (a :
       cases hl : s.lock with
       | false => rfl
       | true => simp only [hl, ind_true] at mutex; omega
-    refine ⟨?_, ?_, ?_, ?_, ?_, ?_, ?_, ?_, ?_, ?_, ?_, ?_, ?_, ?_, ?_⟩ <;>
+    refine ⟨?_, ?_, ?_, ?_, ?_, ?_, ?_, ?_, ?_, ?_, ?_, ?_, ?_, ?_, ?_, ?_⟩ <;>
       simp only [cntC_replicate, cntS_replicate, freshCon, freshSup, List.length_replicate, hrest, hlk,
         CPc.isChk2, CPc.isReput, CPc.isLock, CPc.isTake, CPc.isGive, CPc.isTest, CPc.isUnlT, CPc.isUnlF,
         CPc.isExtra, CPc.isDone, SPc.isPe1, SPc.notStarted, SPc.noMark, ind_true, ind_false, marksOf,
@@ -303,22 +305,36 @@ theorem inv_step (c : Cfg) (hm : 1 ≤ c.m) (hn : 1 ≤ c.n) (s s' : State) (a :
     have := noItems (rn hr).1
     rw [hq] at this; simp [itemsOf] at this
   | rRetry hr hq hdue hstop =>
-    exact ⟨lenS, lenC, tok, spareEq, mkr, mutex, wLt, wEq, fifo, noItems, rn, rf, perm, hist, nme⟩
+    exact ⟨lenS, lenC, tok, spareEq, mkr, mutex, wLt, wEq, fifo, noItems, rn, rf, perm, hist, nme, lkT⟩
   | rStop hr hq hdue hstop =>
-    refine ⟨lenS, lenC, tok, spareEq, mkr, mutex, wLt, wEq, fifo, noItems, ?_, ?_, perm, hist, nme⟩
+    refine ⟨lenS, lenC, tok, spareEq, mkr, mutex, wLt, wEq, fifo, noItems, ?_, ?_, perm, hist, nme, lkT⟩
     · intro hh; cases hh
     · simp
   | setStop hstop =>
-    exact ⟨lenS, lenC, tok, spareEq, mkr, mutex, wLt, wEq, fifo, noItems, rn, rf, perm, hist, nme⟩
+    exact ⟨lenS, lenC, tok, spareEq, mkr, mutex, wLt, wEq, fifo, noItems, rn, rf, perm, hist, nme, lkT⟩
   | tick hnd =>
-    exact ⟨lenS, lenC, tok, spareEq, mkr, mutex, wLt, wEq, fifo, noItems, rn, rf, perm, hist, nme⟩
+    exact ⟨lenS, lenC, tok, spareEq, mkr, mutex, wLt, wEq, fifo, noItems, rn, rf, perm, hist, nme, lkT⟩
+
+/-- a consumer inside `put(None)` (handing the marker on, or adding the extra one) finds the queue
+    empty, so that `put` never blocks -/
+theorem put_none_room (c : Cfg) (s : State) (hi : Inv c s) (j : Nat) (a : Con) (h : s.cons[j]? = some a)
+    (hp : a.pc = .reput ∨ a.pc = .extra) : s.queue = [] := by
+  obtain ⟨lenS, lenC, tok, spareEq, mkr, mutex, wLt, wEq, fifo, noItems, rn, rf, perm, hist, nme, lkT⟩ := hi
+  have hE := ind_le s.extraOut
+  cfacts h
+  have hu : c.m ≤ s.used := by
+    rcases hp with hp | hp <;> simp only [hp, CPc.isReput, CPc.isExtra, ind_true] at * <;> omega
+  have := wEq hu
+  apply queue_nil_of _ (noItems hu)
+  rcases hp with hp | hp <;> simp only [hp, CPc.isReput, CPc.isExtra, CPc.isChk2, CPc.isLock,
+    CPc.isTake, ind_true, ind_false] at * <;> omega
 
 /-- what `renew` finds when it takes the marker off the queue -/
 theorem renew_facts (c : Cfg) (s : State) (rest : List QItem) (hi : Inv c s) (hr : s.rpc = .get)
     (hq : s.queue = .mark :: rest) :
     rest = [] ∧ s.spare = 0 ∧ s.applied = 0 ∧ s.used = c.m ∧ s.lock = false ∧ s.extraOut = true
       ∧ ∀ a ∈ s.sups, a.pc = .ended := by
-  obtain ⟨lenS, lenC, tok, spareEq, mkr, mutex, wLt, wEq, fifo, noItems, rn, rf, perm, hist, nme⟩ := hi
+  obtain ⟨lenS, lenC, tok, spareEq, mkr, mutex, wLt, wEq, fifo, noItems, rn, rf, perm, hist, nme, lkT⟩ := hi
   have hE := ind_le s.extraOut
   obtain ⟨hu2, hall⟩ := rn hr
   have z : ∀ q : CPc → Bool, q .done = false → cntC q s.cons = 0 := by
@@ -370,7 +386,7 @@ theorem round_end_facts (c : Cfg) (hn : 1 ≤ c.n) (s : State) (hi : Inv c s)
     s.queue = [.mark] ∧ s.spare = 0 ∧ s.applied = 0 ∧ s.used = c.m ∧ s.lock = false
       ∧ ∀ a ∈ s.sups, a.pc = .ended := by
   have hu2 := used_full_of_all_done c hn s hi hall
-  obtain ⟨lenS, lenC, tok, spareEq, mkr, mutex, wLt, wEq, fifo, noItems, rn, rf, perm, hist, nme⟩ := hi
+  obtain ⟨lenS, lenC, tok, spareEq, mkr, mutex, wLt, wEq, fifo, noItems, rn, rf, perm, hist, nme, lkT⟩ := hi
   have hE := ind_le s.extraOut
   have z : ∀ q : CPc → Bool, q .done = false → cntC q s.cons = 0 := by
     intro q hq2
@@ -408,7 +424,7 @@ theorem round_end_facts (c : Cfg) (hn : 1 ≤ c.n) (s : State) (hi : Inv c s)
     cases hb : b.pc <;> simp [hb] at m1 m2 m3 ⊢
 
 theorem inv_init (c : Cfg) (hm : 1 ≤ c.m) : Inv c (init c) := by
-  refine ⟨?_, ?_, ?_, ?_, ?_, ?_, ?_, ?_, ?_, ?_, ?_, ?_, ?_, ?_, ?_⟩ <;>
+  refine ⟨?_, ?_, ?_, ?_, ?_, ?_, ?_, ?_, ?_, ?_, ?_, ?_, ?_, ?_, ?_, ?_⟩ <;>
     simp only [init, cntC_replicate, cntS_replicate, freshCon, freshSup, List.length_replicate,
       CPc.isChk2, CPc.isReput, CPc.isLock, CPc.isTake, CPc.isGive, CPc.isTest, CPc.isUnlT, CPc.isUnlF,
       CPc.isExtra, CPc.isDone, SPc.isPe1, SPc.notStarted, SPc.noMark, ind_true, ind_false, marksOf,
